@@ -188,6 +188,23 @@ func (l *lbCtx) lb0(v ssa.Value) int64 {
 		}
 		return lbUnknown
 	case *ssa.Extract:
+		// one result of a repository helper: the least bound over its returns
+		if call, ok := x.Tuple.(*ssa.Call); ok {
+			if cal := call.Common().StaticCallee(); cal != nil && isRepoFunc(cal) && cal.Blocks != nil && !l.busyFn[cal] {
+				l.busyFn[cal] = true
+				r := int64(math.MaxInt64)
+				for _, ret := range returnsOf(cal) {
+					if x.Index < len(ret.Results) {
+						r = minLb(r, l.lb(ret.Results[x.Index]))
+					}
+				}
+				l.busyFn[cal] = false
+				if r == math.MaxInt64 {
+					return lbUnknown
+				}
+				return r
+			}
+		}
 		// index of a range loop over string/map is not needed here
 		if nx, ok := x.Tuple.(*ssa.Next); ok && x.Index == 0 {
 			_ = nx
@@ -374,6 +391,18 @@ func containsRem(v ssa.Value, depth int) *ssa.BinOp {
 		return containsRem(x.X, depth+1)
 	case *ssa.ChangeType:
 		return containsRem(x.X, depth+1)
+	case *ssa.Extract:
+		if call, ok := x.Tuple.(*ssa.Call); ok {
+			if cal := call.Common().StaticCallee(); cal != nil && isRepoFunc(cal) && cal.Blocks != nil {
+				for _, ret := range returnsOf(cal) {
+					if x.Index < len(ret.Results) {
+						if r := containsRem(ret.Results[x.Index], depth+3); r != nil {
+							return r
+						}
+					}
+				}
+			}
+		}
 	case *ssa.Call:
 		// the result of a helper of the repository that computes it with %
 		if cal := x.Common().StaticCallee(); cal != nil && isRepoFunc(cal) && cal.Blocks != nil && cal.Signature.Results().Len() == 1 {
